@@ -9,6 +9,7 @@ import (
 	gobig "math/big"
 	mrand "math/rand"
 	"os"
+	"reflect"
 	"runtime"
 	"sync"
 	"sync/atomic"
@@ -139,7 +140,18 @@ func stress(a *hx.Args, rng *mrand.Rand, res *hx.Result) {
 			hx.Fatal("marshal credential: %v", err)
 		}
 		for round := 0; round < firstUse; round++ {
-			stored := &gabi.Credential{Pk: kp.PK}
+			// (a fresh public key OBJECT with the same key material: state that the library initialises lazily inside it is raced
+			// for at the same instant)
+			fresh := &gabikeys.PublicKey{}
+			{
+				src, dst := reflect.ValueOf(kp.PK).Elem(), reflect.ValueOf(fresh).Elem()
+				for i := 0; i < src.NumField(); i++ {
+					if src.Type().Field(i).IsExported() { // (unexported fields are what the library initialises lazily: left zero)
+						dst.Field(i).Set(src.Field(i))
+					}
+				}
+			}
+			stored := &gabi.Credential{Pk: fresh}
 			if err := json.Unmarshal(bts, stored); err != nil {
 				hx.Fatal("unmarshal credential: %v", err)
 			}
@@ -169,7 +181,7 @@ func stress(a *hx.Args, rng *mrand.Rand, res *hx.Result) {
 						res.Violation("prover-failed", fmt.Sprintf("CreateDisclosureProof on a credential just read from storage, under concurrency: %v", err), nil)
 						return
 					}
-					if !p.Verify(kp.PK, ctx, nonces[g], false) && !hx.D10Ambiguous(p, revIdx) {
+					if !p.Verify(fresh, ctx, nonces[g], false) && !hx.D10Ambiguous(p, revIdx) {
 						res.Violation("concurrently-built-proof-invalid", "a proof built at the first concurrent use of a stored credential does not verify", nil)
 					}
 				}(g)
